@@ -115,6 +115,7 @@ type DecSpec struct {
 	Slow     int    `json:"slow,omitempty"`     // > 0: the Slow-th Decor call takes SlowNS of (simulated) time: a slow but healthy decorator
 	SlowNS   int64  `json:"slow_ns,omitempty"`
 	PreInit  bool   `json:"pre_init,omitempty"` // the WC passed to the constructor is a copy of one shared, already initialised style value
+	ShutGet  bool   `json:"shut_get,omitempty"` // a shutdown listener that asks its own bar for its state from OnShutdown ("aborted at 42/100")
 }
 
 // Texts used by probe decorators (index = DecSpec.Text); width varies.
